@@ -1683,7 +1683,7 @@ impl Value {
                 }
                 Enumerator::RevKeyValueIter(rev_iter) => {
                     let for_restart = self.clone();
-                    let iter = Mutex::new(Some(rev_iter));
+                    let iter = Mutex::new(Some(rev_iter.rev()));
                     let repr = o.repr();
                     Some(Value::make_iterable(move || {
                         if let Some(iter) = iter.lock().unwrap().take() {
